@@ -292,6 +292,11 @@ class Unsupported(Exception):
     """Raised by the executor for constructs outside the subset -> havoc + taint."""
 
 
+class StaleContract(Exception):
+    """A contract clause mentions a program name that does not exist where the clause is evaluated: the sidecar is out of date
+    with the code (e.g. a renamed local).  Not a verdict about the code: the function is reported as not verified (undecided)."""
+
+
 class MissingEvent(Unsupported):
     """A trace query (call_arg / call_result) about a call that did not happen on this path: the
     comparison that contains it is false."""
